@@ -15,6 +15,7 @@ import (
 
 	"c4emc/explore"
 	"c4emc/harness"
+	"c4emc/ref"
 
 	dtypes "github.com/chain4energy/c4e-chain/x/cfedistributor/types"
 	vtypes "github.com/chain4energy/c4e-chain/x/cfevesting/types"
@@ -45,6 +46,19 @@ func c11Scenario(name string) *Scenario {
 		return &Scenario{Name: name, Genesis: harness.BuildGenesis(harness.Genesis{Balances: map[string]sdk.Coins{"sigA": coins(5), "sigB": coins(5)}}), T0: harness.T0, Events: c15Events(loadSigFixtures())}
 	case "c17":
 		return &Scenario{Name: name, Genesis: harness.BuildGenesis(c17Genesis()), T0: harness.T0, Events: c17Events(false)}
+	case "decoy":
+		// the application that runs next to a replica in the same process: parameters unlike any
+		// scenario's, so whatever leaks from it into the replica changes the replica's behaviour
+		d := c11Scenario("c11dist")
+		g := c13Genesis()
+		g.Balances = map[string]sdk.Coins{"A": sdk.NewCoins(sdk.NewInt64Coin(harness.Denom, 900), sdk.NewInt64Coin(denomB, 90)), "U1": coins(33), "U2": coins(1)}
+		g.Minter = mintCfg{Periods: []mp{{Kind: ref.Linear, Amount: "7777777", End: 50 * time.Second}, {Kind: ref.ExpStep, Amount: "123456", Step: 7 * time.Second, Mult: "0.9"}}}.Genesis(harness.T0)
+		dp := c13DistParams()
+		dp.SubDistributors[0].Destinations.BurnShare = sdk.MustNewDecFromStr("0.25")
+		dp.SubDistributors[0].Destinations.Shares[0].Share = sdk.MustNewDecFromStr("0.45")
+		g.Distr = &dtypes.GenesisState{Params: dp}
+		g.Vesting.VestingTypes[0].Free = sdk.MustNewDecFromStr("0.2")
+		return &Scenario{Name: name, Genesis: harness.BuildGenesis(g), T0: harness.T0, Events: d.Events}
 	case "c11dist":
 		// several bank-backed sources per sub-distributor (two of them module accounts that are only
 		// created lazily), several destinations, two denominations: every collection the distributor
@@ -126,10 +140,35 @@ func ReplicaMain(jobFile, outFile string, only int, variant int) int {
 		n := harness.NewNode(scn.Genesis, scn.T0)
 		n.Transcript = &tr
 		replicaVariant(n, variant)
+		var decoy *harness.Node
+		var decoyScn *Scenario
+		decoyStep := 0
+		if variant > 0 {
+			decoyScn = c11Scenario("decoy")
+			decoy = harness.NewNode(decoyScn.Genesis, decoyScn.T0)
+		}
 		var digs []string
 		h := sha256.New()
 		done := 0
 		for _, e := range job.Paths[i] {
+			if decoy != nil {
+				// the decoy keeps the same block height and time as the replica (it closes a block
+				// whenever the replica does) and otherwise walks round robin through its own messages
+				if dt := scn.Events[e].Block; dt > 0 {
+					decoy.NextBlock(dt)
+				} else {
+					for tries := 0; tries < len(decoyScn.Events); tries++ {
+						ev := &decoyScn.Events[decoyStep%len(decoyScn.Events)]
+						decoyStep++
+						if ev.Block > 0 {
+							continue
+						}
+						if _, _, _, ok := RunEventB(decoyScn, decoy, ev); ok {
+							break
+						}
+					}
+				}
+			}
 			if _, _, _, ok := RunEventB(scn, n, &scn.Events[e]); !ok {
 				tr = append(tr, "not-enabled")
 			}
@@ -233,6 +272,7 @@ func runC11(rc *RunCtx) {
 			break
 		}
 		diverged := 0
+		explained := map[string]bool{}
 		for i := range paths {
 			for r := 1; r < replicas; r++ {
 				a, b := outs[0].Steps[i], outs[r].Steps[i]
@@ -247,11 +287,16 @@ func runC11(rc *RunCtx) {
 					continue
 				}
 				diverged++
-				what := c11Explain(self, jobFile, dir, name, i, events, paths[i], step)
 				evName := "final-commit"
 				if step >= 0 && step < len(paths[i]) {
 					evName = evKind(events[paths[i][step]])
 				}
+				// one explanation (two more processes, a few seconds) per kind of divergence, not per history
+				if explained[name+":"+evName] {
+					break
+				}
+				explained[name+":"+evName] = true
+				what := c11Explain(self, jobFile, dir, name, i, events, paths[i], step)
 				rc.Violate(&explore.Violation{Property: "C11", Sig: "C11:replicas-diverge:" + name + ":" + evName, What: fmt.Sprintf("scenario %s: two independent processes executing the same history disagree at step %d: %s", name, step, what), Path: names(events, paths[i])})
 				break
 			}
@@ -272,7 +317,7 @@ func runC11(rc *RunCtx) {
 	cov["transitions"] = transitions
 	cov["traces_validated_against_impl"] = totalTraces
 	cov["replicas"] = replicas
-	cov["replica_kinds"] = "replica 0: plain node; every other replica: restarted after every block (new application object over the same database) and running CheckTx + Simulate around every delivered transaction"
+	cov["replica_kinds"] = "replica 0: plain node; every other replica: restarted after every block (new application object over the same database) and running CheckTx + Simulate around every delivered transaction, with an unrelated decoy application stepping in the same process"
 	cov["histories_compared"] = totalTraces
 	cov["abci_steps_compared_per_replica"] = totalSteps
 	cov["samples"] = samples
@@ -327,7 +372,7 @@ func c11Explain(self, jobFile, dir, name string, idx int, events []string, path 
 			return fmt.Sprintf("ABCI response %d differs: ...%s... vs ...%s...", k, cut(a), cut(b))
 		}
 	}
-	return "(the explanation re-run did not diverge: the divergence is not reproducible on every run, as expected for map-order dependence)"
+	return "(the explanation re-run, which executes this one history alone in each process, did not diverge: the difference depends on something the history does not fix - Go map order, or process-level state shared with the other histories that the replica processes execute side by side)"
 }
 
 var _ = strings.Join
